@@ -378,6 +378,19 @@ class Executor(Exec):
                 c = cand
                 break
         if c is not None:
+            # a second contract of the same body for a PATH argument ("...@path..." keys): chosen when the argument
+            # bound to a bytes / stream / mmap parameter is a path (text) value
+            if fi is not None:
+                try:
+                    bound = self.bind_params(st, fi, c, recv, list(args), dict(kwargs))
+                except Unsupported:
+                    bound = {}
+                if any(isinstance(bound.get(p_), VStr) and str(t_) in ("bytes", "stream", "mmap", "none") for p_, t_ in c.params.items()):
+                    base = c.key.split("@")[0]
+                    for k2, c2 in CONTRACTS.items():
+                        if k2.startswith(base + "@path") and cls in c2.contexts:
+                            c = c2
+                            break
             return self.call_contract(st, c, recv, args, kwargs, fi)
         if fi is not None:
             expr = _as_expression(fi.node.body)
